@@ -61,8 +61,11 @@ def _worker_init():
 def _run_one(case):
     t0 = time.time()
     signal.setitimer(signal.ITIMER_REAL, CASE_TIMEOUT_S)
+    seed = _SEED
+    if isinstance(case, dict) and "__seed_offset__" in case:  # thorough tiers repeat the enumeration for several payload seeds
+        seed, case = _SEED + case["__seed_offset__"], case["case"]
     try:
-        res = _MOD.run_case(case, _SEED)
+        res = _MOD.run_case(case, seed)
     except CaseTimeout:
         res = {"transitions": 1, "outcome": "timeout", "violations": [{
             "key": f"{_MOD.PROPERTY}|timeout|{getattr(_MOD, 'case_signature', digest)(case)}",
@@ -72,7 +75,7 @@ def _run_one(case):
                "".join(traceback.format_exception(type(e), e, e.__traceback__))[-3000:]}
     finally:
         signal.setitimer(signal.ITIMER_REAL, 0)
-    res["case"] = case
+    res["case"] = case if seed == _SEED else {"__seed_offset__": seed - _SEED, "case": case}
     res["wall"] = time.time() - t0
     return res
 
@@ -117,6 +120,9 @@ def main(mod, argv=None):
     if hasattr(mod, "prepare"):
         mod.prepare(args.tier, seed)
     cases = list(mod.cases(args.tier, seed))
+    offsets = list(getattr(mod, "PAYLOAD_SEEDS", {}).get(args.tier, [0]))
+    if offsets != [0]:
+        cases = [c if k == 0 else {"__seed_offset__": k, "case": c} for k in offsets for c in cases]
     capped = False
     if args.limit:
         cases, capped = cases[:args.limit], True
@@ -207,6 +213,7 @@ def main(mod, argv=None):
         "known_findings_matched": known_hit,
         "slow_cases": slow[:5],
         "jobs": args.jobs,
+        "payload_seeds": [seed + k for k in offsets],
         **{f"note_{k}": v for k, v in notes.items()},
         **desc,
     }
